@@ -12,7 +12,9 @@ RULE = ("one case = one migration of one history: histories grown by the real pl
         "of one column incl. the auto-increment key column (all 24 orders of the four kinds in quick, all sequences of length 3 and 4 "
         "in thorough), the auto-increment key column retyped by hand-written migrations across the integer / non-integer boundary and back "
         "(integer, big_int, small_int, varchar(36), uuid, text; 4 scripted sequences + random ones, interleaved with comment / default / "
-        "nullability MODIFYs: stream `autokey`), corpus witnesses first; non-trivial = migration on a non-empty baseline emitting >= 2 MySQL statements, "
+        "nullability MODIFYs: stream `autokey`), hand-written AddColumn for every accepted combination of nullable x default x fill_with "
+        "(fill different from the default) over integer, varchar, text, boolean, numeric and a string enum, each followed by a comment change "
+        "of the new column (stream `addcol`; the hand stream adds random such AddColumns), corpus witnesses first; non-trivial = migration on a non-empty baseline emitting >= 2 MySQL statements, "
         "distinct by hash of (baseline, plan)")
 
 ENGINE_RULES = [
